@@ -41,7 +41,12 @@ MANIFEST = dict(
          "and every conversion there and in the integrators (which the symbolic evaluator reads as the identity) must be value preserving "
          "for every input dtype (no narrowing, no rounding, no dtype borrowed from another array); every index used to look up the abscissa "
          "and value tables depends on the query points only through an ordered search of the table, shifted by constants and clamped "
-         "(an index computed by arithmetic selects the bracketing segment for evenly spaced tables only).",
+         "(an index computed by arithmetic selects the bracketing segment for evenly spaced tables only), and -- by abstract interpretation of the "
+         "routine with the table size N symbolic, the index kept as min(H, max(L, search result + c)) -- the clamp leaves every segment selectable "
+         "(lower end: c = -1, L <= 0, H >= N-2; upper end: c = 0, L <= 1, H >= N-1); (9) the dispatch of integrate is evaluated for each documented "
+         "kind of second argument (plain function, bound method, array / list / tuple) with every type test read as a predicate on the kind; rules "
+         "the object files for later calls (self.D[k] = rule) are filed under their own count (key and count brought to a normal form over the "
+         "parameters and the attribute values on entry).",
     note="Not decided: Newton convergence for all n, exactness to degree 2n-1, agreement with an independent rule (numerical facts). "
          "Trusted: clang AST, numpy broadcasting/meshgrid semantics as modelled, sympy normaliser.",
     technique="static analysis: reaching definitions on a C CFG (zero-trip path rule), cross-copy sibling comparison, per-statement formula conformance, typestate/memo-key discipline, symbolic shape inference",
@@ -96,6 +101,7 @@ def run(chk):
     wrapper(chk, repo, cg)
     memo(chk, repo)
     derived_state(chk, repo)
+    kept_rules(chk, repo)
     cached_tables_readonly(chk, repo)
     ts = shapes(chk, repo)
     integrators(chk, folded, ts)
@@ -2435,6 +2441,53 @@ def _rule_call_count(repo, fi, call):
     return b.get(c.id, f.defaults.get(c.id)) if isinstance(c, ast.Name) else c
 
 
+# kinds of integrand (of those the documentation of QGauss.integrate names) for which a type test holds
+_DATA = ("ndarray", "list", "tuple")
+_KINDS = ("function", "method") + _DATA
+_TYPE_KINDS = {"types.FunctionType": {"function"}, "types.LambdaType": {"function"}, "types.MethodType": {"method"}, "types.BuiltinFunctionType": set(),
+               "types.BuiltinMethodType": set(), "functools.partial": set(), "numpy.ufunc": set(), "collections.abc.Callable": {"function", "method"},
+               "collections.Callable": {"function", "method"}, "typing.Callable": {"function", "method"}, "numpy.ndarray": {"ndarray"}, "list": {"list"}, "tuple": {"tuple"},
+               "collections.abc.Sequence": {"list", "tuple"}, "collections.abc.Iterable": set(_DATA), "collections.abc.Sized": set(_DATA)}
+_PRED_KINDS = {"inspect.isfunction": {"function"}, "inspect.ismethod": {"method"}, "inspect.isroutine": {"function", "method"}, "inspect.isbuiltin": set(),
+               "callable": {"function", "method"}, "numpy.iterable": set(_DATA)}
+_ATTR_KINDS = {"__call__": {"function", "method"}, "__code__": {"function"}, "__self__": {"method"}, "__func__": {"method"}, "__len__": set(_DATA), "__iter__": set(_DATA),
+               "__getitem__": set(_DATA)}
+
+
+def _integrand_kinds(repo, fi, e, param):
+    """the subset of _KINDS -- plain Python function / bound method / tabulated values held in an array, list or tuple --
+    for which the test expression on the parameter is true; None when the expression is not a recognised test of the argument's kind"""
+    def types_of(t):
+        ts = t.elts if isinstance(t, (ast.Tuple, ast.List, ast.Set)) else [t]
+        out = set()
+        for x in ts:
+            d = dotted_name(x)
+            q = repo.resolve_name(fi.module, d) if d else None
+            if q not in _TYPE_KINDS:
+                return None
+            out |= _TYPE_KINDS[q]
+        return out
+    if isinstance(e, ast.UnaryOp) and isinstance(e.op, ast.Not):
+        k = _integrand_kinds(repo, fi, e.operand, param)
+        return None if k is None else set(_KINDS) - k
+    if isinstance(e, ast.Call) and not e.keywords:
+        d = dotted_name(e.func)
+        q = repo.resolve_name(fi.module, d) if d else None
+        if q == "isinstance" and len(e.args) == 2 and norm(e.args[0]) == param:
+            return types_of(e.args[1])
+        if q in _PRED_KINDS and len(e.args) == 1 and norm(e.args[0]) == param:
+            return set(_PRED_KINDS[q])
+        if q == "hasattr" and len(e.args) == 2 and norm(e.args[0]) == param and const_value(e.args[1]) in _ATTR_KINDS:
+            return set(_ATTR_KINDS[const_value(e.args[1])])
+    if isinstance(e, ast.Compare) and len(e.ops) == 1 and isinstance(e.left, ast.Call) and call_name(e.left) == "type" and len(e.left.args) == 1 \
+            and norm(e.left.args[0]) == param and isinstance(e.ops[0], (ast.Is, ast.Eq, ast.In, ast.IsNot, ast.NotEq, ast.NotIn)):
+        k = types_of(e.comparators[0])
+        if k is None:
+            return None
+        return k if isinstance(e.ops[0], (ast.Is, ast.Eq, ast.In)) else set(_KINDS) - k
+    return None
+
+
 TABLES = ("self.xxi", "self.wii")
 
 
@@ -2606,17 +2659,37 @@ def memo(chk, repo):
         forwards = [norm(b[p]) if p in b else None for p in ("xvals", second, "npts")] == ["xvals", "yvals_or_func", "npts"]
         pc = _path_cond(vi, n, ig.node, at)
         seen.setdefault(tgt.name, []).append((forwards, pc))
+    why = ""
     if okf:
-        tests = [k for k in at if k[0] == "expr" and k[1].startswith("isinstance(yvals_or_func,")]
         if set(seen) != {"integrate_func", "integrate_data"}:
             okf = False       # every return is a recognised call of an integrator and one of the two is never reached
-        elif len(at) != 1 or len(tests) != 1:
-            okf = None        # dispatched on something other than one isinstance(yvals_or_func, ...) test
+        elif not at:
+            okf = None
         else:
-            isf = at[tests[0]]
-            okf = all(fw for v in seen.values() for fw, _ in v) and all(_param_unchanged(ig, p) for p in ("xvals", "yvals_or_func", "npts")) \
-                and _equiv(sp.Or(*[pc for _, pc in seen["integrate_func"]]), isf) and _equiv(sp.Or(*[pc for _, pc in seen["integrate_data"]]), sp.Not(isf))
-    chk.ob("R17.5", "QGauss.integrate::forwards-npts", okf, ig.where(), "integrate forwards (x, y-or-function, npts) to the matching integrator (%s)" % {k: [fw for fw, _ in v] for k, v in seen.items()})
+            # the dispatch is decided over the kinds of second argument the documentation names -- a plain function, a (bound) method,
+            # tabulated values: every test atom is read as a predicate on that kind (_integrand_kinds) and the path conditions of
+            # the two integrator calls are evaluated for each kind
+            okf = all(fw for v in seen.values() for fw, _ in v) and all(_param_unchanged(ig, p) for p in ("xvals", "yvals_or_func", "npts"))
+            pcf = sp.Or(*[pc for _, pc in seen["integrate_func"]])
+            pcd = sp.Or(*[pc for _, pc in seen["integrate_data"]])
+            kinds = {}
+            for k, sym in at.items():
+                kinds[sym] = _integrand_kinds(repo, ig, ast.parse(k[1], mode="eval").body, "yvals_or_func") if k[0] == "expr" else None
+            if any(v is None for v in kinds.values()):
+                okf = None if okf else okf    # dispatched on something that is not a recognised test of the kind of the second argument
+            else:
+                for kind, want_func in (("function", True), ("method", True)) + tuple((d, False) for d in _DATA):
+                    sub = {sym: sp.true if kind in acc else sp.false for sym, acc in kinds.items()}
+                    to_f, to_d = pcf.subs(sub), pcd.subs(sub)
+                    if to_f not in (sp.true, sp.false) or to_d not in (sp.true, sp.false):
+                        okf = None if okf else okf
+                        break
+                    if bool(to_f) != want_func or bool(to_d) == want_func:
+                        okf = False
+                        shown = " / ".join("`%s`" % k[1][:80] for k in at if k[0] == "expr")
+                        why = ": the dispatch test %s sends %s to %s" % (shown, {"function": "a plain function", "method": "a bound method (documented: 'integrate a function or method')"}.get(kind, "tabulated values (%s)" % kind), "integrate_func" if to_f == sp.true else "integrate_data" if to_d == sp.true else "neither integrator")
+                        break
+    chk.ob("R17.5", "QGauss.integrate::forwards-npts", okf, ig.where(), "integrate forwards (x, y-or-function, npts) to the matching integrator (%s)%s" % ({k: [fw for fw, _ in v] for k, v in seen.items()}, why))
     # qgauss: a fresh integrator for npts points, asked once
     qg = repo.func(IU + "qgauss")
     oks = None
@@ -2917,6 +2990,145 @@ def derived_state(chk, repo):
                   "the values of the old rule are used" % "; ".join(shown[:2]) if ok is False else
                   ": %s; how its reuse is tied to the point count was not recognised" % "; ".join(shown[:2])))
 
+
+# ---------------------------------------------------------------------------
+# R17.5 (history clause): rules the object keeps for later (a per-object table of rules) are filed under their own count
+# ---------------------------------------------------------------------------
+def _attr_reaching(fi, attr, node):
+    """the values the attribute self.A can hold when the node starts: [("entry",)] (what the object held when the method was
+    entered) and / or [("store", cfg node, value)] for the re-binding stores of this method from which the node is reached with no
+    other re-binding in between; None when the attribute is changed in a way not followed (setattr, in-place change, method calls
+    that store it)"""
+    cfg = cfg_of(fi)
+    view = cfg.view()
+    sts = [(n, whole, v) for n, a, whole, v, _ in _attr_stores(fi) if a == attr]
+    if any(not whole for _, whole, _ in sts):
+        return None
+    out = []
+    nodes = [n for n, _, _ in sts]
+    for n, _, v in sts:
+        if n is not node and view.reaches(n, node, avoiding=[m for m in nodes if m is not n]):
+            tv = [tv for t, tv in _stores(cfg).items() if t == attr for tv in tv if tv[0] is n]
+            out.append(("store", n, tv[0][1] if len(tv) == 1 else None))
+    if view.path_exists_entry_to(node, avoiding=nodes):
+        out.append(("entry",))
+    return out
+
+
+def _state_term(repo, fi, e, node, depth=0):
+    """normal form of a point count / key expression evaluated at the node: ('param', name) for a never re-bound parameter,
+    ('const', v), ('entry', 'self.A') for what an attribute held when the method was entered; None when not decided"""
+    if depth > 6 or e is None or isinstance(e, tuple):
+        return None
+    e = rules.expand(e, fi.node) if isinstance(e, ast.Name) and e.id not in [p.lstrip("*") for p in fi.params] else e
+    if isinstance(e, ast.Constant) and isinstance(e.value, int) and not isinstance(e.value, bool):
+        return ("const", e.value)
+    if isinstance(e, ast.Name):
+        return ("param", e.id) if _param_unchanged(fi, e.id) else None
+    if isinstance(e, ast.Call) and len(e.args) == 1 and not e.keywords and (isinstance(e.func, ast.Name) and e.func.id == "int"
+                                                                          or repo.resolve_name(fi.module, dotted_name(e.func) or "?") == "operator.index"):
+        return _state_term(repo, fi, e.args[0], node, depth + 1)
+    a = _self_attr(e)
+    if a:
+        r = _attr_reaching(fi, a, node)
+        if not r or len(r) != 1:
+            return None
+        if r[0] == ("entry",):
+            return ("entry", a)
+        return _state_term(repo, fi, r[0][2], r[0][1], depth + 1)
+    return None
+
+
+def _kept_rule_counts(repo, fi, e, node):
+    """the point counts (normal forms of _state_term, None = not decided) of the rule components an expression holds at the node,
+    one per component and way of reaching it; [] when the expression positively holds no rule component.  The cached tables
+    self.xxi / self.wii as they were on entry belong to the count the object held on entry (the invariant the other R17.5 rules
+    establish)."""
+    ev = _RuleEval(repo, fi)
+    cfg = cfg_of(fi)
+    if isinstance(e, ast.Name):
+        e2 = rules.expand(e, fi.node)
+        if e2 is not e and not isinstance(e2, ast.Name):
+            e = e2
+    if isinstance(e, (ast.Tuple, ast.List)):
+        out = []
+        for x in e.elts:
+            out += _kept_rule_counts(repo, fi, x, node)
+        return out
+    a = _self_attr(e)
+    if a in TABLES:
+        r = _attr_reaching(fi, a, node)
+        if r is None:
+            return [None]
+        out = []
+        for alt in r:
+            if alt == ("entry",):
+                out.append(("entry", "self.npts"))
+                continue
+            _, sn, val = alt
+            c, k = _component(val, cfg, fi.node) if val is not None else (None, None)
+            alts = ev.rule_call(c, sn) if c is not None else None
+            if not alts:
+                # a table re-bound to something that is no rule call: e.g. a read of the kept rules themselves
+                out.append(None)
+                continue
+            for P in alts:
+                rv = P.item(k) if isinstance(P, _Pair) and k in (0, 1) else None
+                out.append(_state_term(repo, fi, rv.count, sn) if rv is not None else None)
+        return out
+    vals = ev.value(e, node)
+    out = []
+    for v in vals:
+        for rv in ((v.a, v.b) if isinstance(v, _Pair) else (v,) if isinstance(v, _RV) else ()):
+            out.append(_state_term(repo, fi, rv.count, node))
+    return out
+
+
+def kept_rules(chk, repo):
+    """'results do not depend on point counts used in earlier calls on the same object': when the object keeps rules it has computed
+    for later calls (self.D[k] = (abscissae, weights)), a later request for k points is answered with what is filed under k.
+    Necessary (the writer invariant, the same one _RuleEval.memo_table demands of module-level tables): at every such store the key
+    is the point count of the rule being stored, for every state of the object -- both are brought to a normal form over the
+    method's parameters and the attribute values on entry (attribute reads resolved over the re-binding stores that reach them)."""
+    methods = _class_methods(repo, "QGauss")
+    setup = repo.func(IU + "QGauss.setup")
+    found = 0
+    for f in methods.values():
+        view = cfg_of(f).view()
+        for n, attr, whole, val, key in _attr_stores(f):
+            if whole or key is None or attr in _KEY_STATE or val is None:
+                continue
+            if isinstance(n.ast, ast.AugAssign):
+                continue
+            counts = _kept_rule_counts(repo, f, val, n)
+            if not counts:
+                continue              # not a store of rule components
+            found += 1
+            kt = _state_term(repo, f, key, n)
+            # tests on the way that equate two terms (`if npts == self.npts:` ...)
+            same = set()
+            for b, lab in view.controlling_branches(n):
+                if b.kind == "branch":
+                    for t in walk_no_nested(rules.expand(b.ast.test, f.node)):
+                        if isinstance(t, ast.Compare) and len(t.ops) == 1 and ((isinstance(t.ops[0], ast.Eq) and lab == "T") or (isinstance(t.ops[0], ast.NotEq) and lab == "F")) \
+                                and not isinstance(b.ast.test, ast.BoolOp):
+                            x, y = _state_term(repo, f, t.left, b), _state_term(repo, f, t.comparators[0], b)
+                            if x and y:
+                                same.add(frozenset((x, y)))
+            if kt is None or any(c is None for c in counts):
+                ok = None
+            else:
+                ok = all(c == kt or frozenset((c, kt)) in same for c in counts)
+            bad = next((c for c in counts if c is not None and kt is not None and c != kt), None)
+
+            def show(t):
+                return {"param": "the argument `%s`", "const": "%s", "entry": "the value `%s` had when the call began"}[t[0]] % t[1]
+            chk.ob("R17.5", "QGauss::kept-rules-filed-under-their-count::%s.%s" % (f.name, attr), ok, f.where(n.ast),
+                   "`%s` keeps rule components on the object under a key: the key must be the point count of the rule stored%s"
+                   % (norm(n.ast)[:90], "" if ok else (": the rule stored is the one for %s but the key `%s` is %s, so a later request for that count is answered with the rule of another count"
+                                                       % (show(bad), norm(key)[:40], show(kt))) if ok is False and bad else ": key or count not brought to a normal form"))
+    if not found:
+        chk.ob("R17.5", "QGauss::kept-rules-filed-under-their-count", True, setup.where(), "the object keeps no table of rules besides the cached pair")
 
 
 class _NoTerm:
@@ -3490,6 +3702,7 @@ def value_preservation(chk, repo):
            % ("" if ok else (": " + "; ".join(msgs) + " -- the segment is then chosen for other abscissae than the ones interpolated to, so the result is extrapolated from a neighbouring segment"
                             if msgs else ": %d searches found, operands not traced to the inputs" % len(searches))))
     segment_index(chk, fi, flow, roles, searches)
+    segment_range(chk, fi, flow)
     # (b) every conversion applied to an input of the interpolation
     per = {p: [] for p in flow.params}
     for n, c in flow.conversions():
@@ -3728,6 +3941,499 @@ def segment_index(chk, fi, flow, roles, searches):
         ("the index `%s` was not traced to an ordered search" % norm(unknown[0][1])[:80]) if unknown else ""
     chk.ob("R17.8", key, ok, fi.where(), "every index used to look up the abscissa and value tables (%d lookups) comes from an ordered search of the table, shifted and clamped only%s"
            % (len(lookups), "" if ok else ": " + what))
+
+
+
+# ---------------------------------------------------------------------------
+# R17.8 (segment clause, range): the clamped index still selects every segment of the table
+# ---------------------------------------------------------------------------
+_INF = "inf"
+
+
+_N_MIN = [2]
+
+
+class _Aff:
+    """a + b*N, N the number of tabulated points (any integer >= _N_MIN[0]; 2 unless stated otherwise); comparisons are decided for
+    all such N or not at all"""
+    __slots__ = ("a", "b")
+
+    def __init__(self, a, b=0):
+        self.a, self.b = a, b
+
+    def __add__(self, o):
+        return _Aff(self.a + o.a, self.b + o.b)
+
+    def __sub__(self, o):
+        return _Aff(self.a - o.a, self.b - o.b)
+
+    def same(self, o):
+        return isinstance(o, _Aff) and (self.a, self.b) == (o.a, o.b)
+
+    def ge_all(self, o):
+        """self >= o for every N >= _N_MIN[0]"""
+        d = self - o
+        return d.b >= 0 and d.a + _N_MIN[0] * d.b >= 0
+
+    def text(self):
+        if not self.b:
+            return "%d" % self.a
+        return ("%sN%s" % ("" if self.b == 1 else "%d*" % self.b, "%+d" % self.a if self.a else "")).replace("+", " + ").replace("-", " - ")
+
+
+def _amax(x, y):
+    """max of two bounds (an _Aff, -inf '-inf' or +inf 'inf'); None when neither dominates for all N >= 2"""
+    if x == "-inf" or y == _INF:
+        return y
+    if y == "-inf" or x == _INF:
+        return x
+    return x if x.ge_all(y) else y if y.ge_all(x) else None
+
+
+def _amin(x, y):
+    if x == _INF or y == "-inf":
+        return y
+    if y == _INF or x == "-inf":
+        return x
+    return y if x.ge_all(y) else x if y.ge_all(x) else None
+
+
+class _Idx:
+    """the index min(H, max(L, s + c)) where s is the result of the ordered search of the whole abscissa table for the query
+    point (0 <= s <= N, the bracketing segment of an interior point being [s-1, s]); c an integer, L / H bounds (_Aff or infinite)"""
+    __slots__ = ("c", "L", "H", "ver")
+
+    def __init__(self, c, L="-inf", H=_INF):
+        self.c, self.L, self.H = c, L, H
+
+    def shift(self, d):
+        return _Idx(self.c + d, self.L if isinstance(self.L, str) else self.L + _Aff(d), self.H if isinstance(self.H, str) else self.H + _Aff(d))
+
+    def at_least(self, B):
+        L, H = _amax(self.L, B), _amax(self.H, B)
+        return None if L is None or H is None else _Idx(self.c, L, H)
+
+    def at_most(self, B):
+        H = _amin(self.H, B)
+        return None if H is None else _Idx(self.c, self.L, H)
+
+
+class _Mask:
+    """the positions where the index held in variable `var` (in its version `ver`) satisfies `op` against the bound B"""
+    __slots__ = ("var", "ver", "op", "B")
+
+    def __init__(self, var, ver, op, B):
+        self.var, self.ver, self.op, self.B = var, ver, op, B
+
+
+_TAB, _VAL, _QRY = "table", "values", "query"
+
+
+def _same_abs(a, b):
+    if a is b:
+        return True
+    if isinstance(a, _Aff) and isinstance(b, _Aff):
+        return a.same(b)
+    if isinstance(a, _Idx) and isinstance(b, _Idx):
+        return a.c == b.c and all(x == y if isinstance(x, str) or isinstance(y, str) else x.same(y) for x, y in ((a.L, b.L), (a.H, b.H)))
+    return isinstance(a, (str, tuple)) and a == b
+
+
+class _IndexRange:
+    """Abstract interpretation of the statements of the interpolation routine, in program order, over the domain above: which
+    names hold the abscissa table / the values / the query points (through value-keeping conversions), the table size (as a + b*N),
+    a search result shifted and clamped (_Idx), a mask on such an index.  Everything else is unknown (None).  Covers every input:
+    no concrete value takes part."""
+
+    def __init__(self, flow, fi):
+        self.flow, self.fi = flow, fi
+        p = flow.params
+        self.env = {p[0]: _VAL, p[1]: _TAB, p[2]: _QRY}
+        self.ver = {}
+        self.alias = {}
+        self.lookups = []        # (expression, base kind, _Idx or None, index expression)
+        self.seg = _Seg(flow, p[2], [])
+        self.stmt = None
+
+    # -- expressions ------------------------------------------------------------
+    def ev(self, e):
+        if isinstance(e, ast.Constant):
+            return _Aff(e.value) if isinstance(e.value, int) and not isinstance(e.value, bool) else None
+        if isinstance(e, ast.Name):
+            return self.env.get(e.id)
+        if isinstance(e, ast.UnaryOp) and isinstance(e.op, ast.USub):
+            v = self.ev(e.operand)
+            return _Aff(-v.a, -v.b) if isinstance(v, _Aff) else None
+        if isinstance(e, ast.BinOp) and isinstance(e.op, (ast.Add, ast.Sub)):
+            l, r = self.ev(e.left), self.ev(e.right)
+            sub = isinstance(e.op, ast.Sub)
+            if isinstance(l, _Aff) and isinstance(r, _Aff):
+                return l - r if sub else l + r
+            if isinstance(l, _Idx) and isinstance(r, _Aff) and not r.b:
+                return l.shift(-r.a if sub else r.a)
+            if isinstance(r, _Idx) and isinstance(l, _Aff) and not l.b and not sub:
+                return r.shift(l.a)
+            return None
+        if isinstance(e, ast.Attribute) and e.attr == "size" and self.ev(e.value) == _TAB:
+            return _Aff(0, 1)
+        if isinstance(e, ast.Subscript) and isinstance(e.ctx, ast.Load):
+            b = self.ev(e.value)
+            # x.shape[0]
+            if isinstance(e.value, ast.Attribute) and e.value.attr == "shape" and self.ev(e.value.value) == _TAB and const_value(e.slice) == 0:
+                return _Aff(0, 1)
+            # x[a:b]: the run of consecutive table entries a .. N+b-1
+            if b == _TAB and isinstance(e.slice, ast.Slice) and e.slice.step is None:
+                lo = 0 if e.slice.lower is None else const_value(e.slice.lower)
+                hi = 0 if e.slice.upper is None else const_value(e.slice.upper)
+                if isinstance(lo, int) and isinstance(hi, int) and not isinstance(lo, bool) and not isinstance(hi, bool) and lo >= 0 and (hi < 0 or e.slice.upper is None):
+                    return ("slice", lo, hi)
+            # np.where(cond)[0]
+            if isinstance(b, _Mask) and const_value(e.slice) == 0:
+                return b
+            return None
+        if isinstance(e, ast.Compare) and len(e.ops) == 1:
+            l, r = self.ev(e.left), self.ev(e.comparators[0])
+            op = type(e.ops[0])
+            flip = {ast.Lt: ast.Gt, ast.Gt: ast.Lt, ast.LtE: ast.GtE, ast.GtE: ast.LtE}
+            if isinstance(r, _Idx) and isinstance(l, _Aff) and op in flip:
+                l, r, op, left = r, l, flip[op], e.comparators[0]
+            else:
+                left = e.left
+            if isinstance(l, _Idx) and isinstance(r, _Aff) and op in flip and isinstance(left, ast.Name):
+                return _Mask(left.id, self.ver.get(left.id, 0), op, r)
+            return None
+        if isinstance(e, ast.IfExp):
+            return None
+        if isinstance(e, ast.Call):
+            return self.call(e)
+        return None
+
+    def bound(self, e):
+        """a clamp limit: None / absent means no limit"""
+        if e is None or _is_none(e):
+            return "none"
+        v = self.ev(e)
+        return v if isinstance(v, _Aff) else None
+
+    def call(self, e):
+        f = e.func
+        nm = self.flow._numpy_func(e)
+        name = call_name(e)
+        # len(x), np.size(x)
+        if ((isinstance(f, ast.Name) and f.id == "len") or nm == "size") and len(e.args) == 1 and not e.keywords and self.ev(e.args[0]) == _TAB:
+            return _Aff(0, 1)
+        # the ordered search
+        if name in ("searchsorted", "digitize"):
+            t = q = None
+            if name == "searchsorted" and nm is not None:
+                t = e.args[0] if e.args else kwarg(e, "a")
+                q = e.args[1] if len(e.args) > 1 else kwarg(e, "v")
+            elif name == "searchsorted" and isinstance(f, ast.Attribute):
+                t, q = f.value, (e.args[0] if e.args else kwarg(e, "v"))
+            elif nm is not None:
+                q = e.args[0] if e.args else kwarg(e, "x")
+                t = e.args[1] if len(e.args) > 1 else kwarg(e, "bins")
+            if t is None or q is None or kwarg(e, "sorter") is not None or len(e.args) > 2 or any(k.arg not in ("a", "v", "x", "bins", "side", "right") for k in e.keywords):
+                return None
+            tv, qv = self.ev(t), self.ev(q)
+            if qv != _QRY:
+                return None
+            if tv == _TAB:
+                return _Idx(0, _Aff(0), _Aff(0, 1))
+            if isinstance(tv, tuple) and tv[0] == "slice":
+                # searching entries a .. N+b-1 only: the result is clamp(s - a, 0, N + b - a)
+                return _Idx(-tv[1], _Aff(0), _Aff(tv[2] - tv[1], 1))
+            return None
+        # conversions that keep the elements (and, of an integer index, its values)
+        c = self.flow.conversion(e)
+        if c is not None:
+            v = self.ev(c[0])
+            if v in (_TAB, _VAL, _QRY):
+                return v if c[1] == "keep" else None
+            if isinstance(v, _Idx):
+                return v if c[1] in ("keep", "dtype", "narrow") else None
+            return None
+        # clamps
+        if nm == "clip" or (nm is None and isinstance(f, ast.Attribute) and f.attr == "clip"):
+            args = list(e.args)
+            v = self.ev(args.pop(0)) if nm == "clip" and args else self.ev(f.value) if nm is None else None
+            if not isinstance(v, _Idx) or len(args) > 2 or any(k.arg not in ("a_min", "a_max", "min", "max") for k in e.keywords):
+                return None
+            lo = self.bound(args[0] if args else kwarg(e, "a_min") or kwarg(e, "min"))
+            hi = self.bound(args[1] if len(args) > 1 else kwarg(e, "a_max") or kwarg(e, "max"))
+            if lo is None or hi is None:
+                return None
+            # numpy: clip(a, lo, hi) is minimum(hi, maximum(a, lo))
+            if lo != "none":
+                v = v.at_least(lo)
+            if hi != "none" and v is not None:
+                v = v.at_most(hi)
+            return v
+        if nm in ("minimum", "maximum", "fmin", "fmax") and len(e.args) == 2 and not e.keywords:
+            a, b = self.ev(e.args[0]), self.ev(e.args[1])
+            if isinstance(b, _Idx):
+                a, b = b, a
+            if isinstance(a, _Idx) and isinstance(b, _Aff):
+                return a.at_most(b) if nm in ("minimum", "fmin") else a.at_least(b)
+            return None
+        if nm in ("where", "nonzero", "flatnonzero") and len(e.args) == 1 and not e.keywords:
+            m = self.ev(e.args[0])
+            return m if isinstance(m, _Mask) else None
+        if nm == "where" and len(e.args) == 3 and not e.keywords:
+            m = self.ev(e.args[0])
+            a, b = self.ev(e.args[1]), self.ev(e.args[2])
+            if isinstance(m, _Mask) and self.ver.get(m.var, 0) == m.ver and isinstance(self.env.get(m.var), _Idx):
+                cur = self.env[m.var]
+                if isinstance(a, _Aff) and isinstance(e.args[2], ast.Name) and e.args[2].id == m.var:
+                    return self.masked(cur, m.op, m.B, a)
+                if isinstance(b, _Aff) and isinstance(e.args[1], ast.Name) and e.args[1].id == m.var:
+                    neg = {ast.Lt: ast.GtE, ast.GtE: ast.Lt, ast.Gt: ast.LtE, ast.LtE: ast.Gt}
+                    return self.masked(cur, neg[m.op], m.B, b)
+            return None
+        return None
+
+    @staticmethod
+    def masked(cur, op, B, V):
+        """the (integer) index with the elements that satisfy `op B` replaced by V, when that is a clamp"""
+        one = _Aff(1)
+        if op is ast.GtE and (V.same(B) or V.same(B - one)):
+            return cur.at_most(V)
+        if op is ast.Gt and (V.same(B) or V.same(B + one)):
+            return cur.at_most(V)
+        if op is ast.Lt and (V.same(B) or V.same(B - one)):
+            return cur.at_least(V)
+        if op is ast.LtE and (V.same(B) or V.same(B + one)):
+            return cur.at_least(V)
+        return None
+
+    # -- statements -------------------------------------------------------------
+    def bind(self, name, v):
+        self.env[name] = v
+        self.ver[name] = self.ver.get(name, 0) + 1
+
+    def forget(self, stmts):
+        for st in stmts:
+            for x in ast.walk(st):
+                if isinstance(x, ast.Name) and isinstance(x.ctx, (ast.Store, ast.Del)):
+                    self.bind(x.id, None)
+                elif isinstance(x, (ast.Subscript, ast.Attribute)) and isinstance(x.ctx, (ast.Store, ast.Del)):
+                    b = x
+                    while isinstance(b, (ast.Subscript, ast.Attribute)):
+                        b = b.value
+                    if isinstance(b, ast.Name):
+                        self.bind(b.id, None)
+                elif isinstance(x, ast.Call) and kwarg(x, "out") is not None:
+                    for y in ast.walk(kwarg(x, "out")):
+                        if isinstance(y, ast.Name):
+                            self.bind(y.id, None)
+                elif isinstance(x, ast.Call) and isinstance(x.func, ast.Attribute) and x.func.attr in _INPLACE and isinstance(x.func.value, ast.Name) and self.flow._numpy_func(x) is None:
+                    self.bind(x.func.value.id, None)
+
+    def scan(self, e):
+        """record the lookups of the abscissa / value tables made by the expression"""
+        for x in walk_no_nested(e):
+            if isinstance(x, ast.Subscript) and isinstance(x.ctx, ast.Load) and not _plain_slice(x.slice) and not isinstance(x.slice, ast.Tuple):
+                base = self.ev(x.value)
+                if base in (_TAB, _VAL):
+                    iv = self.ev(x.slice)
+                    node = next((n for n in self.flow.cfg.nodes if n.ast is self.stmt), None)
+                    if not isinstance(iv, _Aff) and (isinstance(iv, _Idx) or node is None or self.seg.dep(x.slice, node)):
+                        self.lookups.append((x, base, iv if isinstance(iv, _Idx) else None, x.slice))
+
+    def nonempty_test(self, t):
+        """the name w when the test is `w is not empty` (w.size > 0, w.size != 0, w.size, len(w) ...), else None"""
+        if isinstance(t, ast.Compare) and len(t.ops) == 1:
+            l, r, op = t.left, t.comparators[0], t.ops[0]
+            if const_value(l) == 0 and isinstance(op, (ast.Lt, ast.NotEq)):
+                return self.nonempty_test(r)
+            if (const_value(r) == 0 and isinstance(op, (ast.Gt, ast.NotEq))) or (const_value(r) == 1 and isinstance(op, ast.GtE)):
+                return self.nonempty_test(l)
+            return None
+        if isinstance(t, ast.Attribute) and t.attr == "size" and isinstance(t.value, ast.Name):
+            return t.value.id
+        if isinstance(t, ast.Call) and isinstance(t.func, ast.Name) and t.func.id == "len" and len(t.args) == 1 and isinstance(t.args[0], ast.Name):
+            return t.args[0].id
+        return None
+
+    def masked_store(self, st):
+        """xm[w] = V with w a mask on the current xm"""
+        if isinstance(st, ast.Assign) and len(st.targets) == 1 and isinstance(st.targets[0], ast.Subscript) and isinstance(st.targets[0].value, ast.Name):
+            return st.targets[0].value.id, st.targets[0].slice, st.value
+        return None
+
+    def run(self, stmts):
+        for st in stmts:
+            self.stmt = st
+            if isinstance(st, (ast.FunctionDef, ast.AsyncFunctionDef, ast.ClassDef, ast.Import, ast.ImportFrom, ast.Pass, ast.Global, ast.Nonlocal)):
+                continue
+            if isinstance(st, ast.Expr) and isinstance(st.value, ast.Constant):
+                continue
+            if isinstance(st, ast.If):
+                self.scan(st.test)
+                w = self.nonempty_test(st.test)
+                if w is not None and isinstance(self.env.get(w), _Mask) and not st.orelse and all(
+                        self.masked_store(b) is not None and isinstance(self.masked_store(b)[1], ast.Name) and self.masked_store(b)[1].id == w for b in st.body):
+                    # stores through an empty index array change nothing: the body runs as if unconditional
+                    self.run(st.body)
+                    continue
+                # both arms are interpreted on a copy of the state; an arm that ends in raise / return hands nothing on, and a name
+                # keeps its value after the statement only when the arms that continue agree on it
+                before = (dict(self.env), dict(self.ver))
+                ends = []
+                for arm in (st.body, st.orelse):
+                    self.env, self.ver = dict(before[0]), dict(before[1])
+                    self.run(arm)
+                    if not (arm and isinstance(arm[-1], (ast.Raise, ast.Return))):
+                        ends.append((self.env, self.ver))
+                if not ends:
+                    self.env, self.ver = dict(before[0]), dict(before[1])
+                    continue
+                env, ver = dict(ends[0][0]), dict(ends[0][1])
+                for e2, v2 in ends[1:]:
+                    for k in set(env) | set(e2):
+                        if not (k in env and k in e2 and _same_abs(env[k], e2[k]) and ver.get(k, 0) == v2.get(k, 0)):
+                            env[k] = None
+                            ver[k] = max(ver.get(k, 0), v2.get(k, 0)) + 1
+                self.env, self.ver = env, ver
+                continue
+            if isinstance(st, ast.Expr) and isinstance(st.value, ast.Call) and isinstance(kwarg(st.value, "out"), ast.Name):
+                # np.minimum(xm, limit, out=xm): the result of the call without `out`, bound to that name
+                c = st.value
+                self.scan(c)
+                plain = ast.copy_location(ast.Call(func=c.func, args=c.args, keywords=[k for k in c.keywords if k.arg != "out"]), c)
+                v = self.ev(plain)
+                tgt = kwarg(c, "out").id
+                self.bind(tgt, v if isinstance(v, _Idx) else None)
+                for o in self.alias.get(tgt, ()):
+                    self.bind(o, None)
+                continue
+            if isinstance(st, (ast.Return, ast.Expr)):
+                if st.value is not None:
+                    self.scan(st.value)
+                    self.forget([st])
+                continue
+            if isinstance(st, ast.Assign) and len(st.targets) == 1:
+                t = st.targets[0]
+                self.scan(st.value)
+                if isinstance(t, ast.Name):
+                    v = self.ev(st.value)
+                    if isinstance(st.value, ast.Name) and isinstance(v, _Idx):
+                        self.alias.setdefault(st.value.id, set()).add(t.id)
+                        self.alias.setdefault(t.id, set()).add(st.value.id)
+                    self.bind(t.id, v)
+                    continue
+                if isinstance(t, (ast.Tuple, ast.List)) and len(t.elts) == 1 and isinstance(t.elts[0], ast.Name):
+                    v = self.ev(st.value)
+                    self.bind(t.elts[0].id, v if isinstance(v, _Mask) else None)
+                    continue
+                ms = self.masked_store(st)
+                if ms is not None:
+                    name, ix, val = ms
+                    cur, m, V = self.env.get(name), self.ev(ix), self.ev(val)
+                    new = None
+                    if isinstance(cur, _Idx) and isinstance(m, _Mask) and m.var == name and m.ver == self.ver.get(name, 0) and isinstance(V, _Aff):
+                        new = self.masked(cur, m.op, m.B, V)
+                    if isinstance(cur, _Idx) or name in self.alias:
+                        self.bind(name, new)
+                        for o in self.alias.get(name, ()):
+                            self.bind(o, None)
+                    elif self.env.get(name) in (_TAB, _VAL, _QRY):
+                        self.bind(name, None)
+                    continue
+                self.forget([st])
+                continue
+            if isinstance(st, ast.AugAssign) and isinstance(st.target, ast.Name) and isinstance(st.op, (ast.Add, ast.Sub)):
+                self.scan(st.value)
+                cur, v = self.env.get(st.target.id), self.ev(st.value)
+                new = None
+                if isinstance(cur, _Idx) and isinstance(v, _Aff) and not v.b:
+                    new = cur.shift(v.a if isinstance(st.op, ast.Add) else -v.a)
+                elif isinstance(cur, _Aff) and isinstance(v, _Aff):
+                    new = cur + v if isinstance(st.op, ast.Add) else cur - v
+                self.bind(st.target.id, new)
+                for o in self.alias.get(st.target.id, ()):
+                    self.bind(o, None)
+                continue
+            # anything else (loops, try, with, other assignments): its expressions are scanned with what is known before it,
+            # and every name it may bind or change is unknown afterwards
+            self.forget([st])
+            self.scan(st)
+
+
+def segment_range(chk, fi, flow):
+    """R17.8: 'the weighted sum ... of the linearly interpolated values': a query point strictly inside the table is interpolated on
+    the segment [x[s-1], x[s]] that the ordered search (result s, 1 <= s <= N-1) brackets it with.  The index actually used is the
+    search result shifted by a constant c and clamped, min(H, max(L, s + c)), computed here for every statement by abstract
+    interpretation with the table size N symbolic.  Necessary for every table size N >= 2: an index used for the lower end (c = -1)
+    equals s - 1 for all 1 <= s <= N-1, i.e. L <= 0 and H >= N-2; one used for the upper end (c = 0) has L <= 1 and H >= N-1;
+    no other shift is an end of the bracketing segment.  A tighter clamp means the first / last segment is never selected and the
+    points in it are extrapolated from the neighbouring one."""
+    key = "interplin::clamped-index-reaches-every-segment"
+    # tables of at least 2 points first; when a limit cannot be ordered for all of those (max(N-2, 1) ...) the same analysis is made for
+    # tables of at least 3 and 4 points, where only a violation counts (a routine wrong for every table of 4 or more points is wrong)
+    first = None
+    for n_min in (2, 3, 4):
+        _N_MIN[0] = n_min
+        try:
+            verdict = _segment_range_verdict(fi, flow)
+        finally:
+            _N_MIN[0] = 2
+        first = first or verdict
+        if verdict[0] is not None or verdict[1] is None:
+            break
+    ok, where, msg = verdict
+    if n_min > 2:
+        ok, where, msg = (False, where, msg + " (analysed for tables of %d or more points)" % n_min) if ok is False else first
+    where = where or fi.where()
+    chk.ob("R17.8", key, ok, where, msg)
+
+
+def _segment_range_verdict(fi, flow):
+    """(ok, where, message) of segment_range for tables of at least _N_MIN[0] points; where is None when no lookup was recognised"""
+    ir = _IndexRange(flow, fi)
+    try:
+        ir.run(fi.node.body)
+    except RecursionError:
+        ir.lookups = []
+    found = [(x, b, iv, ix) for x, b, iv, ix in ir.lookups]
+    if not found:
+        return None, None, "no lookup of the abscissa / value tables with a searched index was recognised"
+    bad, undecided, n_ok = None, None, 0
+    N = _Aff(0, 1)
+    for x, b, iv, ix in found:
+        if iv is None:
+            undecided = undecided or (x, "the index `%s` was not brought to the form clamp(search result + constant)" % norm(ix)[:60])
+            continue
+        if iv.c not in (-1, 0):
+            bad = bad or (x, "its index is the search result %+d: for an interior point the search result s brackets it with [x[s-1], x[s]], and x[s%+d] is no end of that segment" % (iv.c, iv.c))
+            continue
+        # the clamp limits that matter, given 0 <= s <= N: effective limits of min(H, max(L, s + c))
+        lo_need = _Aff(1 + iv.c)             # s = 1 must give 1 + c
+        hi_need = N + _Aff(iv.c - 1)         # s = N-1 must give N-1+c
+        which = "lower" if iv.c == -1 else "upper"
+        L_ok = iv.L == "-inf" or (isinstance(iv.L, _Aff) and lo_need.ge_all(iv.L))
+        H_ok = iv.H == _INF or (isinstance(iv.H, _Aff) and iv.H.ge_all(hi_need))
+        if not H_ok:
+            bad = bad or (x, "its index (the %s end of the segment) is limited from above to %s, but for the last segment it has to reach %s: the last segment of the table is never selected "
+                             "for some table size, and query points in [x[N-2], x[N-1]] are extrapolated from the segment before" % (which, iv.H.text(), hi_need.text()))
+            continue
+        if not L_ok:
+            bad = bad or (x, "its index (the %s end of the segment) is limited from below to %s, but for the first segment it has to be %s: the first segment of the table is never selected "
+                             "for some table size, and query points in [x[0], x[1]] are extrapolated from the segment after" % (which, iv.L.text(), lo_need.text()))
+            continue
+        # within the table for every search result (0 and N included): exactly the documented end segments
+        Le = _amax(iv.L, _Aff(iv.c))
+        He = _amin(iv.H, N + _Aff(iv.c))
+        if isinstance(Le, _Aff) and isinstance(He, _Aff) and Le.same(lo_need) and He.same(hi_need):
+            n_ok += 1
+        else:
+            undecided = undecided or (x, "its index ranges over [%s, %s] where [%s, %s] is expected (query points outside the table)"
+                                         % (Le.text() if isinstance(Le, _Aff) else Le, He.text() if isinstance(He, _Aff) else He, lo_need.text(), hi_need.text()))
+    if bad:
+        return False, fi.where(bad[0]), "table lookup `%s`: %s" % (norm(bad[0])[:40], bad[1])
+    ok = True if n_ok and not undecided else None
+    return ok, fi.where(), ("every searched index used on the abscissa / value tables (%d lookups) equals the bracketing segment's end for interior points and stays on the end segments outside%s"
+                            % (len(found), "" if ok else ": table lookup `%s`: %s" % (norm(undecided[0])[:40], undecided[1]) if undecided else ""))
 
 
 
